@@ -113,6 +113,11 @@ theorem sinkState_data_not_eat {s : State} (h : sinkState .data s) :
   unfold sinkState at h
   rcases h with h | h | h | ⟨k, h⟩ <;> subst h <;> simp
 
+theorem sinkState_data_not_unq {s : State} (h : sinkState .data s) :
+    s ≠ .attributeValue .unquoted := by
+  unfold sinkState at h
+  rcases h with h | h | h | ⟨k, h⟩ <;> subst h <;> simp
+
 /-- `transSet` never enters a look-ahead (`eat`) state nor `tagOpen` with a changed `reconsume` -/
 theorem transSet_not_eat (o : Opts) (pol : Pol) (m : Mach) (r : SetRes)
     (hm : m.state ≠ .markupDeclarationOpen ∧ m.state ≠ .afterDoctypeName) :
@@ -123,8 +128,9 @@ theorem transSet_not_eat (o : Opts) (pol : Pol) (m : Mach) (r : SetRes)
     (have h1 := sinkState_data_not_eat (emitTag_state pol .data m)
      simp_all)
 
-/-- `transChar` enters `markupDeclarationOpen` only from `tagOpen` on `!`, never `tagOpen`, and
-`afterDoctypeName` only with an empty temporary buffer or by staying there -/
+/-- `transChar` enters `markupDeclarationOpen` only from `tagOpen` on `!`, never `tagOpen` nor the
+unquoted attribute value state, and `afterDoctypeName` only with an empty temporary buffer or by
+staying there -/
 theorem transChar_enter (o : Opts) (pol : Pol) (m : Mach) (c : Char) :
     ((transChar o pol m c).1.state = .markupDeclarationOpen →
         (m.state = .tagOpen ∧ c = '!' ∧ (transChar o pol m c).1.tempBuf = m.tempBuf ∧
@@ -134,12 +140,80 @@ theorem transChar_enter (o : Opts) (pol : Pol) (m : Mach) (c : Char) :
           ((transChar o pol m c).1.tempBuf = [] ∨
            (m.state = .afterDoctypeName ∧ (transChar o pol m c).1.tempBuf = m.tempBuf))) ∨
         (transChar o pol m c).1 = m) ∧
-    ((transChar o pol m c).1.state = .tagOpen → (transChar o pol m c).1 = m) := by
+    ((transChar o pol m c).1.state = .tagOpen → (transChar o pol m c).1 = m) ∧
+    ((transChar o pol m c).1.state = .attributeValue .unquoted → (transChar o pol m c).1 = m) := by
   unfold transChar
   split <;> (repeat' split) <;>
     (have h1 := sinkState_data_not_eat (emitTag_state pol .data m)
      have h2 := sinkState_data_not_eat (emitTag_state pol .data (clearTemp m))
      have h3 := sinkState_data_not_eat (emitTag_state pol .data { m with tagSelfClosing := true })
+     have h1' := sinkState_data_not_unq (emitTag_state pol .data m)
+     have h2' := sinkState_data_not_unq (emitTag_state pol .data (clearTemp m))
+     have h3' := sinkState_data_not_unq (emitTag_state pol .data { m with tagSelfClosing := true })
      simp_all)
+
+/-- `transSet` stays in / enters the unquoted attribute value state only from itself, and then
+not on whitespace -/
+theorem transSet_unq (o : Opts) (pol : Pol) (m : Mach) (r : SetRes)
+    (h : (transSet o pol m r).1.state = .attributeValue .unquoted) :
+    m.state = .attributeValue .unquoted ∧ ∀ c, r = .fromSet c → isWs c = false := by
+  unfold transSet at h
+  split at h <;> (repeat' split at h) <;>
+    (have h1' := sinkState_data_not_unq (emitTag_state pol .data m)
+     simp_all)
+
+/-! ### `FromSet(c)` vs `NotFromSet([c])` for a character outside the set -/
+
+theorem emitChar_setCurrentChar (m : Mach) (a c : Char) :
+    emitChar (m.setCurrentChar a) c = (emitChar m c).setCurrentChar a := by
+  unfold emitChar; split <;> rfl
+
+/-- "`FromSet` can contain characters not in the set ... the fallback `FromSet` case should
+always do the same thing as the `NotFromSet` case" — it does, in every state read with
+`pop_except_from`, except that the unquoted-attribute state reports five characters as errors
+only on the slow path (excluded here; that state is never entered with `ignore_lf` set).
+The stale `current_char` is carried along untouched. -/
+theorem transSet_dead (o : Opts) (pol : Pol) (m : Mach) (a x : Char)
+    (hk : readKind m.state = .popExcept ∨ readKind m.state = .dataSimd)
+    (hx : (setOf m.state).contains x = false)
+    (hu : m.state ≠ .attributeValue .unquoted) :
+    transSet o pol (m.setCurrentChar a) (.fromSet x) =
+      ((transSet o pol m (.notFromSet [x])).1.setCurrentChar a,
+       (transSet o pol m (.notFromSet [x])).2) := by
+  cases hs : m.state with
+  | data => simp [transSet, hs, setOf] at hx ⊢; simp [hx, emitChar_setCurrentChar, emitChars, emitChar]; rfl
+  | plaintext => simp [transSet, hs, setOf] at hx ⊢; simp [hx, emitChar_setCurrentChar, emitChars, emitChar]; rfl
+  | rawData k =>
+    cases k with
+    | scriptDataEscaped e =>
+      cases e <;> (simp [transSet, hs, setOf] at hx ⊢; simp [hx, emitChar_setCurrentChar, emitChars, emitChar]; rfl)
+    | _ => simp [transSet, hs, setOf] at hx ⊢; simp [hx, emitChar_setCurrentChar, emitChars, emitChar]; rfl
+  | attributeValue k =>
+    cases k with
+    | unquoted => exact absurd hs hu
+    | _ => simp [transSet, hs, setOf] at hx ⊢; simp [hx, pushValue, appendValue]; rfl
+  | _ => simp [hs, readKind] at hk
+
+/-- a `NotFromSet` run never changes the state nor starts a character reference, and the handler
+does not look at `current_char` -/
+theorem transSet_notFromSet (o : Opts) (pol : Pol) (m : Mach) (b : Str) :
+    (transSet o pol m (.notFromSet b)).1.state = m.state ∧
+    (transSet o pol m (.notFromSet b)).1.charRef = m.charRef ∧
+    ∀ a, transSet o pol (m.setCurrentChar a) (.notFromSet b) =
+      ((transSet o pol m (.notFromSet b)).1.setCurrentChar a, (transSet o pol m (.notFromSet b)).2) := by
+  unfold transSet
+  split <;> simp_all [emitChars, appendValue] <;> (try (intro a; rfl))
+
+/-- every `pop_except_from` set contains CR and LF (so a run never contains a line break) -/
+theorem setOf_crlf (s : State) (hk : readKind s = .popExcept ∨ readKind s = .dataSimd) :
+    (setOf s).contains '\r' = true ∧ (setOf s).contains '\n' = true := by
+  cases s with
+  | data => decide
+  | plaintext => decide
+  | rawData k => cases k with
+    | scriptDataEscaped e => cases e <;> decide
+    | _ => decide
+  | attributeValue k => cases k <;> decide
+  | _ => simp [readKind] at hk
 
 end H5V.Model.HtmlTok
